@@ -41,9 +41,13 @@ import (
 	"helm.sh/helm/v4/pkg/chart/v2/loader"
 	chartutil "helm.sh/helm/v4/pkg/chart/v2/util"
 	"helm.sh/helm/v4/pkg/cli"
+	helmcmd "helm.sh/helm/v4/pkg/cmd"
 	"helm.sh/helm/v4/pkg/downloader"
 	"helm.sh/helm/v4/pkg/getter"
+	kubefake "helm.sh/helm/v4/pkg/kube/fake"
 	"helm.sh/helm/v4/pkg/provenance"
+	"helm.sh/helm/v4/pkg/storage"
+	"helm.sh/helm/v4/pkg/storage/driver"
 
 	"verif/harness/internal/hx"
 )
@@ -215,6 +219,11 @@ func c17GetKeys() *c17Keys {
 			panic(err)
 		}
 		k := &c17Keys{dir: dir}
+		for _, e := range []string{"HELM_CACHE_HOME", "HELM_CONFIG_HOME", "HELM_DATA_HOME"} {
+			d := filepath.Join(dir, strings.ToLower(e))
+			os.MkdirAll(d, 0o755)
+			os.Setenv(e, d)
+		}
 		k.signer, k.signerPub, k.signerSecret = c17NewKey("Trusted Signer", dir)
 		k.other, k.otherPub, k.otherSec = c17NewKey("Other Key", dir)
 		c17K = k
@@ -286,7 +295,7 @@ func c17Sample(r *rand.Rand, n, k int) []int {
 	return p
 }
 
-func c17Build(r *rand.Rand, exhaustive bool) c17Case {
+func c17Build(r *rand.Rand, exhaustive, withCmd bool) c17Case {
 	k := c17GetKeys()
 	work, _ := os.MkdirTemp(k.dir, "gen-")
 	defer os.RemoveAll(work)
@@ -480,19 +489,50 @@ func c17Build(r *rand.Rand, exhaustive bool) c17Case {
 			c.Dls = append(c.Dls, c17Dl{Kind: "pull", Strat: st, Variant: v})
 		}
 	}
+	// the same strategies through the dependency manager and the command line
+	if !strings.Contains(ch.Metadata.Version, "+") {
+		for _, v := range []string{"good", "tampered", "noprov", "untrusted", "nochart"} {
+			for st := 0; st < 4; st++ {
+				c.Dls = append(c.Dls, c17Dl{Kind: "manager", Strat: st, Variant: v})
+			}
+		}
+		if withCmd {
+			for _, v := range []string{"good", "noprov", "tampered"} {
+				for _, st := range []int{0, 2} {
+					c.Dls = append(c.Dls, c17Dl{Kind: "cmd-dep-update", Strat: st, Variant: v})
+					c.Dls = append(c.Dls, c17Dl{Kind: "cmd-dep-build", Strat: st, Variant: v})
+				}
+			}
+		}
+	}
+	if withCmd {
+		for _, v := range []string{"good", "tampered", "noprov", "untrusted"} {
+			for _, st := range []int{0, 2, 3} {
+				c.Dls = append(c.Dls, c17Dl{Kind: "cmd-pull", Strat: st, Variant: v})
+			}
+			c.Dls = append(c.Dls, c17Dl{Kind: "cmd-template", Strat: 2, Variant: v})
+			c.Dls = append(c.Dls, c17Dl{Kind: "cmd-verify", Strat: 2, Variant: v})
+		}
+		c.Dls = append(c.Dls, c17Dl{Kind: "cmd-template", Strat: 0, Variant: "good"}, c17Dl{Kind: "cmd-template", Strat: 0, Variant: "noprov"})
+	}
 	return c
 }
 
-func (*c17) Generate(r *rand.Rand, _ int) any { return c17Build(r, false) }
+// command-line runs go through cobra, whose global initialiser list grows with every run:
+// only the first cases of a run carry them
+func (*c17) Generate(r *rand.Rand, i int) any { return c17Build(r, false, i < 40) }
 
-func (*c17) Corpus() []any { return nil }
+// the witness of the repaired `helm dependency build --verify` defect (missing provenance file
+// tolerated) is the cmd-dep-build / strategy 2 / noprov run of every case that carries
+// command-line runs; one such case is always run first
+func (*c17) Corpus() []any { return []any{c17Build(rand.New(rand.NewSource(17)), false, true)} }
 
 func (*c17) Exhaustive(tier string) []any {
 	if tier != "thorough" {
 		return nil
 	}
 	r := rand.New(rand.NewSource(1717))
-	return []any{c17Build(r, true), c17Build(r, true)}
+	return []any{c17Build(r, true, false), c17Build(r, true, false)}
 }
 
 func (*c17) Decode(raw json.RawMessage) (any, error) {
@@ -839,6 +879,88 @@ func c17RunDl(c *c17Case, d c17Dl, dir string, rings map[string]string) (res c17
 		cpo := action.ChartPathOptions{Verify: d.Strat == 2, Keyring: rings[kr]}
 		_, err := cpo.LocateChart(path, settings)
 		res.Err = err != nil
+	case "cmd-pull":
+		args := []string{"pull", base + c.Name, "-d", dest, "--keyring", rings[kr], "--repository-config", settings.RepositoryConfig, "--repository-cache", settings.RepositoryCache}
+		if d.Strat == 2 {
+			args = append(args, "--verify")
+		} else if d.Strat == 3 {
+			args = append(args, "--prov")
+		}
+		_, err := helmcmd.VerifRunCmd(args, c17Cfg())
+		res.Err = err != nil
+	case "cmd-template":
+		args := []string{"template", "rel", base + c.Name, "--keyring", rings[kr], "--repository-config", settings.RepositoryConfig, "--repository-cache", settings.RepositoryCache}
+		if d.Strat == 2 {
+			args = append(args, "--verify")
+		}
+		_, err := helmcmd.VerifRunCmd(args, c17Cfg())
+		res.Err = err != nil
+	case "cmd-verify":
+		path := filepath.Join(dest, c.Name)
+		os.WriteFile(path, archive, 0o644)
+		if res.ProvOK {
+			os.WriteFile(path+".prov", prov, 0o644)
+		}
+		_, err := helmcmd.VerifRunCmd([]string{"verify", path, "--keyring", rings[kr]}, c17Cfg())
+		res.Err = err != nil
+	case "manager", "cmd-dep-update", "cmd-dep-build":
+		ch, err := loader.LoadArchive(bytes.NewReader(c.Archive))
+		if err != nil {
+			res.Err, res.Panic = true, "case archive does not load: "+err.Error()
+			return res
+		}
+		idx, _ := yaml.Marshal(map[string]any{"apiVersion": "v1", "entries": map[string]any{ch.Metadata.Name: []map[string]any{
+			{"apiVersion": "v2", "name": ch.Metadata.Name, "version": ch.Metadata.Version, "urls": []string{c.Name}}}}})
+		srv.mu.Lock()
+		srv.files["charts.test/pkg/index.yaml"] = idx
+		srv.mu.Unlock()
+		os.MkdirAll(settings.RepositoryCache, 0o755)
+		os.WriteFile(filepath.Join(settings.RepositoryCache, "r-index.yaml"), idx, 0o644)
+		settings.RepositoryConfig = filepath.Join(dir, "repositories.yaml")
+		os.WriteFile(settings.RepositoryConfig, []byte("apiVersion: \"\"\nrepositories:\n- name: r\n  url: http://charts.test/pkg\n"), 0o644)
+		parent := filepath.Join(dir, "parent")
+		os.MkdirAll(parent, 0o755)
+		md, _ := yaml.Marshal(&chart.Metadata{APIVersion: "v2", Name: "parent", Version: "0.1.0",
+			Dependencies: []*chart.Dependency{{Name: ch.Metadata.Name, Version: ch.Metadata.Version, Repository: "http://charts.test/pkg"}}})
+		os.WriteFile(filepath.Join(parent, "Chart.yaml"), md, 0o644)
+		repoFlags := []string{"--keyring", rings[kr], "--skip-refresh", "--repository-config", settings.RepositoryConfig, "--repository-cache", settings.RepositoryCache}
+		switch d.Kind {
+		case "manager":
+			m := &downloader.Manager{Out: io.Discard, ChartPath: parent, Keyring: rings[kr], SkipUpdate: true, Getters: getter.All(settings),
+				RepositoryConfig: settings.RepositoryConfig, RepositoryCache: settings.RepositoryCache, Verify: downloader.VerificationStrategy(d.Strat)}
+			res.Err = m.Update() != nil
+		case "cmd-dep-update":
+			args := append([]string{"dependency", "update", parent}, repoFlags...)
+			if d.Strat == 2 {
+				args = append(args, "--verify")
+			}
+			_, err := helmcmd.VerifRunCmd(args, c17Cfg())
+			res.Err = err != nil
+		case "cmd-dep-build":
+			// a lock file first (genuine archive, no verification), then the build under test
+			srv.mu.Lock()
+			srv.files["charts.test/pkg/"+c.Name] = c.Archive
+			srv.mu.Unlock()
+			m := &downloader.Manager{Out: io.Discard, ChartPath: parent, SkipUpdate: true, Getters: getter.All(settings),
+				RepositoryConfig: settings.RepositoryConfig, RepositoryCache: settings.RepositoryCache}
+			if err := m.Update(); err != nil {
+				res.Err, res.Panic = true, "preparing the lock file: "+err.Error()
+				return res
+			}
+			os.RemoveAll(filepath.Join(parent, "charts"))
+			srv.mu.Lock()
+			delete(srv.files, "charts.test/pkg/"+c.Name)
+			if res.ChartOK {
+				srv.files["charts.test/pkg/"+c.Name] = archive
+			}
+			srv.mu.Unlock()
+			args := append([]string{"dependency", "build", parent}, repoFlags...)
+			if d.Strat == 2 {
+				args = append(args, "--verify")
+			}
+			_, err := helmcmd.VerifRunCmd(args, c17Cfg())
+			res.Err = err != nil
+		}
 	case "locate-remote", "pull":
 		if d.Kind == "locate-remote" {
 			cpo := action.ChartPathOptions{Verify: d.Strat == 2, Keyring: rings[kr]}
@@ -853,6 +975,11 @@ func c17RunDl(c *c17Case, d c17Dl, dir string, rings map[string]string) (res c17
 		}
 	}
 	return res
+}
+
+func c17Cfg() *action.Configuration {
+	return &action.Configuration{Releases: storage.Init(driver.NewMemory()), KubeClient: &kubefake.PrintingKubeClient{Out: io.Discard},
+		Capabilities: chartutil.DefaultCapabilities}
 }
 
 func c17Count(key string, n int) {
@@ -1050,8 +1177,16 @@ func (*c17) CoqCase(ci, oi any) string {
 			kind = fmt.Sprintf("(DDownload %d)", d.Strat)
 		case "locate-local":
 			kind = "(DLocateLocal " + hx.CoqBool(d.Strat == 2) + ")"
-		case "locate-remote":
+		case "locate-remote", "cmd-template":
 			kind = "(DLocateRemote " + hx.CoqBool(d.Strat == 2) + ")"
+		case "cmd-verify":
+			kind = "(DLocateLocal true)"
+		case "manager":
+			kind = fmt.Sprintf("(DManager %d)", d.Strat)
+		case "cmd-dep-update":
+			kind = "(DDepUpdate " + hx.CoqBool(d.Strat == 2) + ")"
+		case "cmd-dep-build":
+			kind = "(DDepBuild " + hx.CoqBool(d.Strat == 2) + ")"
 		default:
 			kind = fmt.Sprintf("(DPull %s %s)", hx.CoqBool(d.Strat == 2), hx.CoqBool(d.Strat == 3))
 		}
